@@ -47,6 +47,7 @@ def check(ck):
         _document_level(ck, repo, w)
     with ck.rule("R6"):
         rule_tables(ck, repo, w)
+        values_of_correct_type_table(ck, repo)
         # 5.5.2.3 intersects possible-type sets: they must hold every (extension-added) member
         from .c03 import possible_type_sets
         possible_type_sets(ck, repo)
@@ -672,3 +673,122 @@ def _variable_usage_tables(ck, repo):
     apps = [c for c in ov.calls("append") if unparse(c.func.value) == "errors"]
     ok = len(apps) == 1 and ("_validate_usage(schema_argument, variable_used)", "F") in ov.conditions(apps[0])
     ck.ob("all-variable-usages-are-allowed: an error is produced iff the usage is not allowed", ok, o, apps[0] if apps else o.node, construct="table:usage:report")
+
+
+def values_of_correct_type_table(ck, repo):
+    """5.6.1 as a path-outcome table of ValuesOfCorrectType._validate(reduced type, current type, arg, ..., value_node, input_field):
+    which kinds of value reach which verdict, whatever the statements look like.  Shared by C06 (accept side) and C07 (refuse side)."""
+    from ..pathtab import outcome_rows, truth, instance_fact
+    f = repo.func(RULES_PKG + "values_of_correct_type.py", "ValuesOfCorrectType._validate")
+    fv = FuncView(f)
+    a = f.node.args
+    names = [x.arg for x in a.args]
+    if len(names) < 9:
+        raise AnalysisError(f"{f.qualname}: expected (self, reduced, current, arg, path, errors, schema, value_node, input_field)")
+    _, red, cur, argn, _, errs, _, vn, _ = names[:9]
+    subjects = (vn, f"{argn}.value")
+    loops = [lp for lp in fv.loops() if isinstance(lp, ast.For) and any(callee_last(c) == f.name for c in ast.walk(lp) if isinstance(c, ast.Call))]
+    item = unparse(loops[0].target) if len(loops) == 1 and isinstance(loops[0].target, ast.Name) else None
+    if item is None:
+        raise AnalysisError(f"{f.qualname}: expected one loop over the items of a list value that validates each item")
+    loop = loops[0]
+    body_ids = {id(x) for s in loop.body for x in ast.walk(s)}
+    rows = outcome_rows(fv)
+    n = 0
+
+    def fact(r, cls):
+        for s in subjects:
+            v = instance_fact(r, s, cls)
+            if v is not None:
+                return v
+        return None
+
+    for r in rows:
+        if r["exit"] != "return_exit":
+            continue
+        n += 1
+        stmts = [nd.ast for nd in r["trace"].nodes if nd.kind == "stmt" and nd.ast is not None]
+        reported = any(callee_last(c) == "graphql_error_from_nodes" for s in stmts for c in ast.walk(s) if isinstance(c, ast.Call))
+        rec = [c for s in stmts for c in ast.walk(s) if isinstance(c, ast.Call) and callee_last(c) == f.name]
+        in_loop = any(id(s) in body_ids for s in stmts) or any(nd.kind == "test" and nd.ast is not None and id(nd.ast) in body_ids for nd in r["trace"].nodes)
+        rec_item = [c for c in rec if id(c) in body_ids]
+        is_var, is_null = fact(r, "VariableNode"), fact(r, "NullValueNode")
+        c_nn, c_list = instance_fact(r, cur, "GraphQLNonNull"), instance_fact(r, cur, "GraphQLList")
+        where = r["last"] or f.node
+        tag = ",".join(f"{k}={v}" for k, v in (("var", is_var), ("null", is_null), ("nonnull", c_nn), ("list", c_list)) if v)
+        if is_var == "T":
+            ck.ob("values-of-correct-type: a variable is left to the variable rules (no verdict here)", not reported and not rec, f, where, construct="value-table:variable")
+            continue
+        if is_var != "F":
+            ck.ob("values-of-correct-type: the value's kind is examined before anything else", False, f, where, construct="value-table:kind-first", detail=tag)
+            continue
+        if c_nn == "T":
+            if is_null == "T":
+                ck.ob("values-of-correct-type: null for a non-null type is reported", reported, f, where, construct="value-table:nonnull:null")
+            elif is_null == "F":
+                ok = len(rec) == 1 and arg_text(rec[0], 1) == f"{cur}.gql_type" and arg_text(rec[0], None, "value_node") in subjects
+                ck.ob("values-of-correct-type: a non-null type hands the same value on to the type it wraps", ok and not reported, f, where, construct="value-table:nonnull:unwrap")
+            else:
+                ck.ob("values-of-correct-type: a non-null type asks whether the value is null", False, f, where, construct="value-table:nonnull:asks-null", detail=tag)
+            continue
+        if c_list == "T":
+            if is_null == "T":
+                ck.ob("values-of-correct-type: null for a (nullable) list type is accepted as it is", not reported and not rec, f, where, construct="value-table:list:null")
+                continue
+            if is_null != "F":
+                ck.ob("values-of-correct-type: a list type asks whether the whole value is null before looking at items (null is not a list of one null)", False, f, where,
+                      construct="value-table:list:asks-null", detail=tag)
+            if not in_loop:
+                continue  # no items
+            iv = instance_fact(r, item, "VariableNode")
+            if rec_item:
+                c = rec_item[0]
+                ok = arg_text(c, 1) == f"{cur}.gql_type" and arg_text(c, None, "value_node") == item and arg_text(c, 0) == red
+                ck.ob("values-of-correct-type: each item of a list value is validated against the item type", ok, f, c, construct="value-table:list:item")
+                ck.ob("values-of-correct-type: an item is validated only once it is known not to be a variable", iv == "F", f, c, construct="value-table:list:item-kind", detail=str(iv))
+            else:
+                ck.ob("values-of-correct-type: the only item of a list value left unvalidated is a variable (a null item is judged by the item type: [Int!] refuses [1, null])",
+                      iv == "T", f, where, construct="value-table:list:skip-only-variable",
+                      detail=f"tests on the skipped item: {[(c, o) for c, o in r['conds'] if item in c]}")
+            continue
+        if c_nn != "F" or c_list != "F":
+            ck.ob("values-of-correct-type: the wrappers of the current type are peeled before the leaf is judged", False, f, where, construct="value-table:wrappers-first", detail=tag)
+            continue
+        # leaf
+        if is_null == "T":
+            ck.ob("values-of-correct-type: null for a nullable leaf is accepted", not reported and not rec, f, where, construct="value-table:leaf:null")
+            continue
+        if is_null != "F":
+            ck.ob("values-of-correct-type: a leaf asks whether the value is null before parsing it", False, f, where, construct="value-table:leaf:asks-null", detail=tag)
+            continue
+        sc = instance_fact(r, red, "GraphQLScalarType")
+        io = instance_fact(r, red, "GraphQLInputObjectType")
+        en = instance_fact(r, red, "GraphQLEnumType")
+        bad_literal = any(truth(r, f"{red}.parse_literal({s}) is UNDEFINED_VALUE") == "T" for s in subjects)
+        good_literal = any(truth(r, f"{red}.parse_literal({s}) is UNDEFINED_VALUE") == "F" for s in subjects)
+        if [sc, io, en].count("T") > 1:
+            continue  # the three leaf kinds are disjoint classes: not a feasible path
+        if sc == "T":
+            if bad_literal:
+                ck.ob("values-of-correct-type: a literal the scalar cannot parse is reported", reported, f, where, construct="value-table:leaf:scalar:bad")
+            elif good_literal:
+                ck.ob("values-of-correct-type: a literal the scalar parses is accepted", not reported, f, where, construct="value-table:leaf:scalar:good")
+            else:
+                ck.ob("values-of-correct-type: a scalar leaf is judged by the scalar's parse_literal", False, f, where, construct="value-table:leaf:scalar:parses", detail=str(r["conds"][-3:]))
+            continue
+        if io == "T":
+            calls = [c for s in stmts for c in ast.walk(s) if isinstance(c, ast.Call) and callee_last(c) == "_validate_input_object"]
+            ok = len(calls) == 1 and arg_text(calls[0], None, "object_node") in subjects and arg_text(calls[0], None, "schema_argument_definition") == red
+            ck.ob("values-of-correct-type: an input-object leaf is judged field by field on the same value", ok, f, calls[0] if calls else where, construct="value-table:leaf:object")
+            continue
+        if en == "T":
+            member = [(c, o) for c, o in r["conds"] if f"{red}.values" in c]
+            if member:
+                c, o = member[-1]
+                outside = (" not in " in c and o == "T") or (" not in " not in c and " in " in c and o == "F")
+                ck.ob("values-of-correct-type: an enum literal is reported iff it names no value of the enum", reported == outside, f, where, construct="value-table:leaf:enum")
+            else:
+                ck.ob("values-of-correct-type: an enum leaf is judged by membership in the enum's values", False, f, where, construct="value-table:leaf:enum:asks", detail=str(r["conds"][-3:]))
+            continue
+        ck.ob("values-of-correct-type: no verdict on a leaf that is neither scalar, input object nor enum", not reported, f, where, construct="value-table:leaf:other")
+    ck.count("values_of_correct_type_paths", n, 20)
